@@ -19,14 +19,15 @@ Ph2(sets, e, e2) == [sets |-> sets, ev |-> IF e = e2 THEN <<e>> ELSE <<e, e2>>]
 OkScript == [setup |-> Ph(<<>>, "ok"), body |-> Ph(<<>>, "ok"), teardown |-> Ph(<<>>, "ok")]
 F(p, s, i) == [pat |-> p, strict |-> s, invert |-> i]
 Pl(n, en, er) == [name |-> n, enabled |-> en, err |-> er]
-Cfg(rp, rv, sh, ri, gf, nf, pl) == [repeat |-> rp, reverse |-> rv, shuffle |-> sh, runIgnored |-> ri, gf |-> gf, nf |-> nf, plugins |-> pl]
+Cfg(rp, rv, sh, ri, gf, nf, pl) == [repeat |-> rp, reverse |-> rv, shuffle |-> sh, runIgnored |-> ri, gf |-> gf, nf |-> nf, plugins |-> pl, list |-> "none"]
+CfgL(rv, gf, nf, lm) == [repeat |-> 1, reverse |-> rv, shuffle |-> FALSE, runIgnored |-> FALSE, gf |-> gf, nf |-> nf, plugins |-> <<>>, list |-> lm]
 T(gg, nn, ig) == [g |-> gg, n |-> nn, ign |-> ig, after |-> <<>>]
 TA(gg, nn, ig, af) == [g |-> gg, n |-> nn, ign |-> ig, after |-> af]
 ChainOps == { <<>>, <<[op |-> "install", name |-> "Q1"]>>, <<[op |-> "remove", name |-> "P1"]>>, <<[op |-> "remove", name |-> "P3"], [op |-> "install", name |-> "Q2"]>> }
 
 Regs ==
     IF Mode \in {"life", "life2"} THEN { [i \in 1..n |-> T(A, <<"t", ToString(i)>>, FALSE)] : n \in 0..MaxTests }
-    ELSE IF Mode = "select" THEN
+    ELSE IF Mode \in {"select", "list"} THEN
         UNION { [1..n -> { T(gg, nn, ig) : gg \in {A, AB, B}, nn \in {X, XY}, ig \in BOOLEAN }] : n \in 0..MaxTests }
     \* "ptr": plugins are also installed / removed between the tests of the run
     ELSE UNION { { [i \in 1..n |-> TA(A, <<"t", ToString(i)>>, FALSE, af[i])] : af \in [1..n -> ChainOps] } : n \in 1..MaxTests }
@@ -37,6 +38,9 @@ Cfgs ==
         { Cfg(rp, rv, sh, ri, gf, nf, <<>>) : rp \in 1..2, rv \in BOOLEAN, sh \in BOOLEAN, ri \in BOOLEAN,
               gf \in { <<>>, <<F(A, FALSE, FALSE)>>, <<F(A, TRUE, FALSE)>>, <<F(B, FALSE, TRUE), F(A, TRUE, FALSE)>> },
               nf \in { <<>>, <<F(X, TRUE, TRUE)>>, <<F(Y, FALSE, FALSE)>> } }
+    ELSE IF Mode = "list" THEN
+        { CfgL(rv, gf, nf, lm) : rv \in BOOLEAN, lm \in {"lg", "ln", "ll"},
+              gf \in { <<>>, <<F(A, TRUE, FALSE)>>, <<F(B, FALSE, TRUE)>> }, nf \in { <<>>, <<F(Y, FALSE, FALSE)>> } }
     ELSE { Cfg(1, FALSE, FALSE, FALSE, <<>>, <<>>, pl) :
               pl \in { <<>>, <<Pl("P1", TRUE, FALSE), Pl("P2", FALSE, FALSE), Pl("P3", TRUE, TRUE)>> } }
 SetSeqs == UNION { [1..n -> { [loc |-> l, val |-> l + n] : l \in Locs }] : n \in 0..3 }
@@ -45,7 +49,7 @@ Scripts ==
     \* outcomes that differ between repetitions (a test that fails only in some repetition)
     ELSE IF Mode = "life2" THEN { [setup |-> Ph2(<<>>, e1, e1b), body |-> Ph2(<<>>, e2, e2b), teardown |-> Ph(<<>>, "ok")] :
                                      e1 \in Evs, e1b \in Evs, e2 \in Evs, e2b \in Evs }
-    ELSE IF Mode = "select" THEN { OkScript }
+    ELSE IF Mode \in {"select", "list"} THEN { OkScript }
     ELSE { [setup |-> Ph(s1, "ok"), body |-> Ph(s2, e2), teardown |-> Ph(<<>>, "ok")] : s1 \in SetSeqs, s2 \in SetSeqs, e2 \in {"ok", "failCpp"} }
 
 MCInit == \E r \in Regs, c \in Cfgs : InitWith(r, [i \in 1..Len(r) |-> Unset], c)
